@@ -115,6 +115,61 @@ class FnV(V):
 UNIT = Adt("()", 0, ())
 
 
+class TyRef:
+    """a type of some crate's type table (strings alone lose the payload types of generics)."""
+    __slots__ = ("types", "ix")
+
+    def __init__(self, types, ix):
+        self.types = types
+        self.ix = ix
+
+    @property
+    def rec(self):
+        return self.types[self.ix]
+
+    @property
+    def s(self):
+        return self.types[self.ix]["s"]
+
+    def arg(self, i):
+        a = self.rec.get("args") or []
+        if i < len(a) and isinstance(a[i], int):
+            return TyRef(self.types, a[i])
+        return None
+
+    def pointee(self):
+        r = self.rec
+        if r.get("k") in ("ref", "ptr"):
+            return TyRef(self.types, r["to"])
+        return None
+
+    def __str__(self):
+        return self.s
+
+
+_ADTS = {}
+
+
+def _field_ty(tyref, i):
+    """type of field i of a struct-typed TyRef (first variant), using the registered ADT facts."""
+    adt = _ADTS.get(adt_base_name(tyref.s))
+    if adt is None or adt["kind"] != "struct":
+        return None
+    fs = adt["variants"][0]["fields"]
+    if i < len(fs) and "ty" in fs[i]:
+        t = TyRef(adt["types"], fs[i]["ty"])
+        if t.rec.get("k") != "param":
+            return t
+    return None
+
+
+def ty_s(ty):
+    if ty is None:
+        return None
+    return ty.s if isinstance(ty, TyRef) else ty
+
+
+
 def is_const(v, x=None):
     return isinstance(v, Const) and (x is None or v.v == x)
 
@@ -161,6 +216,16 @@ class State:
         if f not in self.flags:
             self.flags = self.flags + (f,)
 
+    def unbind_label(self, label):
+        """a value with this label is (re)created: decisions taken about an earlier instance (variant
+        splits, lazily allocated pointees) no longer apply."""
+        pre = "v:" + label
+        for k in [k for k in self.bind if isinstance(k, str) and k.startswith(pre)]:
+            del self.bind[k]
+        obj = "obj:" + label
+        for a in [a for a in self.heap if isinstance(a, str) and a.startswith(obj)]:
+            del self.heap[a]
+
 
 class Infeasible(Exception):
     pass
@@ -191,6 +256,47 @@ class Budget(Exception):
 # --------------------------------------------------------------------------------------------
 
 
+def strip_generics(path):
+    """remove every balanced <...> group that is a generic argument list ('::<..>' or 'Name<..>'),
+    keeping a leading '<T as Trait>' qualified-self."""
+    out = []
+    depth = 0
+    i = 0
+    n = len(path)
+    while i < n:
+        c = path[i]
+        if c == "<":
+            if depth == 0 and i == 0:
+                # qualified self: keep its text (without nested generics)
+                j, d = i, 0
+                while j < n:
+                    if path[j] == "<":
+                        d += 1
+                    elif path[j] == ">":
+                        d -= 1
+                        if d == 0:
+                            break
+                    j += 1
+                inner = path[1:j]
+                out.append("<" + strip_generics(inner) + ">")
+                i = j + 1
+                continue
+            depth += 1
+            if depth == 1 and out and out[-1] == ":" and len(out) > 1 and out[-2] == ":":
+                out.pop()
+                out.pop()
+        elif c == ">" and depth > 0 and not (i > 0 and path[i - 1] == "-"):
+            depth -= 1
+        elif depth == 0:
+            out.append(c)
+        i += 1
+    return "".join(out)
+
+
+def last_segment(path):
+    return strip_generics(path).split("::")[-1]
+
+
 def adt_base_name(tystr):
     """'std::option::Option<&T>' -> 'std::option::Option'"""
     s = tystr
@@ -206,6 +312,7 @@ class Interp:
     def __init__(self, prog, models=None, opaque=(), max_depth=10, max_paths=200000, loop_bound=4000,
                  trace_effects=None, step_only=None):
         self.prog = prog
+        _ADTS.update(prog.adts_by_name)
         self.models = list(models or [])
         self.opaque = [re.compile(p) for p in opaque]     # callee paths never stepped into
         self.max_depth = max_depth
@@ -246,7 +353,16 @@ class Interp:
             elif isinstance(v, Top):
                 if isinstance(p, tuple):
                     continue
-                return Top("%s.%s" % (v.label, p))
+                fty = None
+                if isinstance(v.ty, TyRef):
+                    r = v.ty.rec
+                    if r.get("k") == "tuple" and isinstance(p, int) and p < len(r["of"]):
+                        fty = TyRef(v.ty.types, r["of"][p])
+                    elif r.get("k") == "adt" and isinstance(p, int):
+                        fty = _field_ty(v.ty, p)
+                if fty is not None and fty.s == "bool":
+                    return Sym("%s.%s" % (v.label, p))
+                return Top("%s.%s" % (v.label, p), fty)
             else:
                 return Top("proj")
         return v
@@ -268,9 +384,12 @@ class Interp:
         return value
 
     # ------------------------------------------------------------------ symbolic construction
-    def materialize(self, tystr, label, variant=None, depth=0):
-        """an Adt value of the named type with unknown fields (Top, or Sym for bools), using the ADT
-        facts; for enums a variant index must be given."""
+    def materialize(self, ty, label, variant=None, depth=0):
+        """an Adt value of the given type (TyRef or type string) with unknown fields (Top, or Sym for
+        bools), using the ADT facts; for enums a variant index must be given."""
+        tystr = ty_s(ty)
+        if tystr is None:
+            return None
         name = adt_base_name(tystr)
         adt = self.prog.adts_by_name.get(name)
         if adt is None:
@@ -284,16 +403,35 @@ class Interp:
             fl = "%s.%s" % (label, f["name"])
             fty = None
             if "ty" in f:
-                fty = adt["types"][f["ty"]]["s"]
+                fty = TyRef(adt["types"], f["ty"])
+                if fty.rec.get("k") == "param" and isinstance(ty, TyRef):
+                    fty = self.generic_payload(ty, name, vix, i) or fty
+            elif isinstance(ty, TyRef):
+                fty = self.generic_payload(ty, name, vix, i)
             fields.append(self.symbolic(fty, fl, depth + 1))
         return Adt(name, vix, fields, var["name"])
 
-    def symbolic(self, tystr, label, depth=0):
-        if tystr == "bool":
-            return Sym(label, (0, 1))
-        return Top(label, tystr)
+    @staticmethod
+    def generic_payload(ty, name, vix, i):
+        if i != 0:
+            return None
+        if name == "std::option::Option" and vix == 1:
+            return ty.arg(0)
+        if name == "std::result::Result":
+            return ty.arg(vix)
+        if name == "std::ops::ControlFlow":
+            return ty.arg(1 - vix)
+        return None
 
-    def variants_of(self, tystr):
+    def symbolic(self, ty, label, depth=0):
+        if ty_s(ty) == "bool":
+            return Sym(label, (0, 1))
+        return Top(label, ty)
+
+    def variants_of(self, ty):
+        tystr = ty_s(ty)
+        if tystr is None:
+            return None
         adt = self.prog.adts_by_name.get(adt_base_name(tystr))
         if adt is None or adt["kind"] != "enum":
             return None
@@ -311,6 +449,21 @@ class Interp:
                 v = self.concretize(v, st)
                 if isinstance(v, Ref):
                     addr, path = v.addr, v.path
+                elif isinstance(v, Top) and not str(v.label).startswith(("uninit", "deref-unknown", "havoc")):
+                    # unknown pointer: allocate its pointee lazily (named by the pointer's label) and
+                    # remember the link in place, so later accesses see the same object
+                    cell = "obj:%s" % v.label
+                    pty = v.ty.pointee() if isinstance(v.ty, TyRef) else None
+                    if cell not in st.heap:
+                        st.heap[cell] = self.symbolic(pty, str(v.label) + ".*")
+                    r = Ref(cell, (), True)
+                    base = st.heap.get(addr)
+                    if base is not None:
+                        try:
+                            st.heap[addr] = self.set_at(base, path, r)
+                        except Infeasible:
+                            pass
+                    addr, path = cell, ()
                 else:
                     return None
             elif k == "field":
@@ -419,6 +572,8 @@ class Interp:
         if k == "const":
             if "fn" in op:
                 return FnV(op["fn"])
+            if "fval" in op:
+                return Const(float(op["fval"]), frame.body.tystr(op["ty"]))
             if "bits" in op:
                 v = int(op["sval"]) if "sval" in op else int(op["bits"])
                 return Const(v, frame.body.tystr(op["ty"]))
@@ -495,6 +650,8 @@ class Interp:
                 if to.get("k") == "int" and not to.get("signed"):
                     return Const(v.v & ((1 << to["bits"]) - 1), to["s"])
                 return Const(v.v, to["s"])
+            if ck == "IntToFloat" and isinstance(v, Const) and isinstance(v.v, int):
+                return Const(float(v.v), frame.body.tystr(rv["to"]))
             if ck.startswith("PointerCoercion") or ck in ("PtrToPtr", "Transmute"):
                 return v
             return Top("cast") if not isinstance(v, (Sym,)) else v
@@ -522,7 +679,15 @@ class Interp:
 
     def binop(self, frame, rv, a, b, st):
         op = rv["op"]
-        if isinstance(a, Const) and isinstance(b, Const) and isinstance(a.v, int) and isinstance(b.v, int):
+        if isinstance(a, Const) and isinstance(b, Const) and isinstance(a.v, float) and isinstance(b.v, float) \
+                and op in ("Add", "Sub", "Mul"):
+            import struct
+            r = {"Add": a.v + b.v, "Sub": a.v - b.v, "Mul": a.v * b.v}[op]
+            if "f32" in str(a.ty):
+                r = struct.unpack("f", struct.pack("f", r))[0]
+            return Const(r, a.ty)
+        if isinstance(a, Const) and isinstance(b, Const) and isinstance(a.v, int) and isinstance(b.v, int) \
+                and not isinstance(a.v, bool):
             x, y = a.v, b.v
             cmpops = {"Eq": x == y, "Ne": x != y, "Lt": x < y, "Le": x <= y, "Gt": x > y, "Ge": x >= y}
             if op in cmpops:
@@ -574,11 +739,11 @@ class Interp:
                 return Const(int(d) if d is not None else v.variant)
             return Const(v.variant)
         # unknown enum value: case-split lazily on its variants
-        tystr = frame.body.tystr(rv["of"])
-        variants = self.variants_of(tystr)
+        tyref = TyRef(frame.body.types, rv["of"])
+        variants = self.variants_of(tyref)
         if variants is None:
             return Top("discr")
-        raise _Fork("variant", place, tystr, variants, v)
+        raise _Fork("variant", place, tyref, variants, v)
 
     # ------------------------------------------------------------------ abstraction for logs / keys
     def abstract(self, v, st, depth=0):
@@ -633,7 +798,7 @@ class Interp:
                 continue
             _collect_syms(k, live)
         items.sort(key=repr)
-        bind = tuple(sorted((n, v) for n, v in st.bind.items() if n in live))
+        bind = tuple(sorted((n, v) for n, v in st.bind.items() if n in live or n.startswith("v:")))
         extra = self.key_log(st) if self.key_log else None
         return (bi, tuple(items), bind, extra)
 
@@ -806,12 +971,18 @@ class Interp:
     def do_fork(self, frame, f, st):
         out = []
         if f.kind == "variant":
+            label0 = f.value.label if isinstance(f.value, Top) else None
+            known = st.bind.get("v:%s" % label0) if label0 is not None else None
             for vix, var in enumerate(f.variants):
+                if known is not None and vix != known:
+                    continue
                 st2 = st.fork()
+                if label0 is not None:
+                    st2.bind["v:%s" % label0] = vix
                 label = f.value.label if isinstance(f.value, Top) else "v"
                 m = self.materialize(f.tystr, label, vix)
                 if m is None:
-                    m = Adt(adt_base_name(f.tystr), vix, [Top("%s.%d" % (label, i)) for i in range(len(var["fields"]))], var["name"])
+                    m = Adt(adt_base_name(ty_s(f.tystr)), vix, [Top("%s.%d" % (label, i)) for i in range(len(var["fields"]))], var["name"])
                 r = self.resolve(frame, f.place, st2)
                 if r is None:
                     continue
@@ -820,9 +991,8 @@ class Interp:
                 if isinstance(self.get_at_safe(base, path[:-1]) if path else None, Top):
                     base = self.materialize_along(frame, f.place, base, path, st2)
                 st2.heap[addr] = self.set_at(base, path, m)
-                nm = self.addr_label(addr)
-                if nm != "tmp" or isinstance(f.value, Top):
-                    st2.choose("variant(%s%s)" % (label, ""), var["name"])
+                if known is None:
+                    st2.choose("variant(%s)" % label, var["name"])
                 out.append(st2)
         return out
 
@@ -841,6 +1011,10 @@ class Interp:
     def do_call(self, frame, bi, t, st):
         """-> list of (ret value, state)"""
         f = t["func"]
+        d = t.get("dest")
+        self._ret_ty = None
+        if d is not None and not d["p"]:
+            self._ret_ty = TyRef(frame.body.types, frame.body.locals[d["l"]]["ty"])
         args = [self.operand(frame, a, st) for a in t["args"]]
         site = "%s:bb%d" % (frame.body.path, bi)
         if f["k"] != "const" or "fn" not in f:
@@ -876,7 +1050,7 @@ class Interp:
         if body is not None and not any(r.search(body.path) for r in self.opaque) and frame.depth < self.max_depth:
             outs = self.call_body(body, args, st, frame.depth + 1)
             return [(o.ret, o.st) for o in outs]
-        return self.opaque_call(path, args, st, site, frame)
+        return self.opaque_call(fn.get("rfull") if fn.get("resolved") and fn.get("rfull") else path, args, st, site, frame)
 
     def call_closure(self, cl, args, st, frame):
         """call a closure value with the given (already tupled-out) arguments."""
@@ -910,9 +1084,18 @@ class Interp:
                         st2.heap[a.addr] = self.set_at(base, a.path, Top("havoc:%s" % path))
                     except Infeasible:
                         pass
+        name = last_segment(path)
+        lab = "ret:%s@%s" % (name, site)
         if log:
-            st2.effect(("call", path, tuple(desc), self.receiver_label(args, st2)))
-        return [(ret if ret is not None else Top("ret:%s@%s" % (path.split("::")[-1], site)), st2)]
+            st2.effect(("call", path, tuple(desc), self.receiver_label(args, st2), lab))
+        if ret is None:
+            st2.unbind_label(lab)
+            ret = self.symbolic(getattr(self, "_ret_ty", None), lab)
+            if isinstance(ret, Sym):
+                ret = self.fresh_sym(st2, ret.name)
+            elif ty_s(ret.ty) == "()":
+                ret = UNIT
+        return [(ret, st2)]
 
     def receiver_label(self, args, st):
         if args and isinstance(args[0], Ref):
